@@ -49,3 +49,65 @@ def pathend(repo):
         raise AnalysisError(f"only {res.instances} field-reference lookups found")
     res.analysed = sorted({m.rel for m in repo.modules.values()})[:0] or ["compiler/front_end/*.py", "compiler/back_end/cpp/header_generator.py"]
     return res
+
+
+def visible(repo):
+    """R-VISIBLE (C12): only anonymous imports (the prelude) are searched for unqualified names.  In the function
+    that builds a module's `visible_scopes`, every scope made from an import (`CanonicalName(module_file=<import>.file_name.text)`)
+    must be added under a test that the import has no local name; a named import reached without that test makes its
+    top-level names (and its own import aliases) resolvable without qualification and creates ambiguities with the
+    importer's own names."""
+    res = RuleResult("R-VISIBLE")
+    m = repo.mod("compiler/front_end/symbol_resolver.py")
+    target = None
+    for f in m.top_funcs():
+        src = m.seg(f.node)
+        if "visible_scopes" in src and "foreign_import" in src:
+            target = f
+    if target is None:
+        raise AnalysisError("symbol_resolver: the function computing a module's visible scopes was not found")
+    f = target
+
+    def anonymous_test(t, var):
+        """t is true only for imports without a local name."""
+        if isinstance(t, ast.BoolOp) and isinstance(t.op, ast.And):
+            return any(anonymous_test(v, var) for v in t.values)
+        if isinstance(t, ast.UnaryOp) and isinstance(t.op, ast.Not):
+            return ast.unparse(t.operand) in (f"{var}.local_name.text", f"{var}.local_name")
+        if isinstance(t, ast.Compare) and len(t.ops) == 1 and isinstance(t.ops[0], ast.Eq) \
+                and ast.unparse(t.left) == f"{var}.local_name.text" and isinstance(t.comparators[0], ast.Constant) and t.comparators[0].value == "":
+            return True
+        return False
+
+    sites = 0
+    for n in walk_no_nested_funcs(f.node):
+        if isinstance(n, ast.Call) and (call_name(n) or "").endswith("CanonicalName"):
+            mf = next((k.value for k in n.keywords if k.arg == "module_file"), None)
+            if mf is None or not ast.unparse(mf).endswith(".file_name.text"):
+                continue
+            var = ast.unparse(mf)[:-len(".file_name.text")]
+            sites += 1
+            res.instances += 1
+            guarded = False
+            cur = n
+            while cur is not f.node:
+                par = m.parent(cur)
+                if par is None:
+                    break
+                if isinstance(par, ast.If) and any(cur is x or cur in ast.walk(x) for x in par.body) and anonymous_test(par.test, var):
+                    guarded = True
+                if isinstance(par, (ast.ListComp, ast.GeneratorExp, ast.SetComp)):
+                    for g in par.generators:
+                        if isinstance(g.target, ast.Name) and g.target.id == var and any(anonymous_test(c, var) for c in g.ifs):
+                            guarded = True
+                cur = par
+            if not guarded:
+                res.add(f"{m.rel}|{f.name}|named-import-visible", f"{f.name} adds the scope of every import `{var}` to the scopes that are "
+                        f"searched for unqualified names, not only of imports without a local name: names of `import \"x.emb\" as x` "
+                        "resolve without `x.`, and a type with the same name in both modules becomes ambiguous", m.rel, n.lineno, f.name)
+            else:
+                res.samples.append(f"{f.name}: import scopes only under `not {var}.local_name.text`")
+    if sites == 0:
+        raise AnalysisError(f"{f.name}: no scope is built from an import")
+    res.analysed = [m.rel]
+    return res
